@@ -3,6 +3,7 @@ package sim
 // C12 — over RTU, a bad-CRC reply is never surfaced as data or as a device exception.
 
 import (
+	"bytes"
 	"errors"
 	"fmt"
 	"time"
@@ -94,6 +95,18 @@ func genC12(rc *RunCtx) (*C1, *c12Info, bool) {
 		dev := NewDevice(uint64(t.Choose(1 << 30)))
 		if fc == 17 {
 			dev.ServerID = t.Bytes(1 + t.Choose(6))
+			if !t.Has("pos") && t.Chance(1, 4) {
+				// the only reply shape that can reach the 256-byte maximum of an RTU frame
+				n := 250 - t.Choose(4)
+				dev.ServerID = make([]byte, n)
+				for i := range dev.ServerID {
+					dev.ServerID[i] = byte(i*7 + 1)
+				}
+				dev.Extra = nil
+				if n < 250 {
+					dev.Extra = t.Bytes(250 - n)
+				}
+			}
 		}
 		pdu = dev.Exec(sc.Req.PDU())
 	}
@@ -135,9 +148,6 @@ func genC12(rc *RunCtx) (*C1, *c12Info, bool) {
 	case 6: // the function code's high bit flips: a data frame that now looks like an exception
 		info.Pos = 1
 		bad[1] ^= 0x80
-	}
-	if len(bad) > 256 {
-		bad = bad[:256]
 	}
 	sc.Reply = bad
 	sc.Chunks = genChunks(t, len(bad))
@@ -213,6 +223,13 @@ func runC12(rc *RunCtx) {
 	for i, out := range outs {
 		if i < len(calls) {
 			checkC12Call(rc, calls[i], infos[i], out, i)
+		}
+	}
+	// a response handed out by an earlier, valid exchange must not turn into the corrupted bytes of a later one
+	if len(calls) == 2 && infos[0].Corruption == "none" && first.Err == nil && !isNilResponse(first.Resp) && !calls[0].IsExc {
+		if got := first.Resp.Bytes(); !bytes.Equal(got, calls[0].Reply) {
+			rc.Violate("badcrc_as_response", fmt.Sprintf("client=%s|via=earlier_response", sc.Kind),
+				"the response of the earlier valid exchange re-encodes to %x after the corrupted reply of the next call was received; it was %x", trunc(got, 40), trunc(calls[0].Reply, 40))
 		}
 	}
 	if len(outs) < len(calls) {
